@@ -29,6 +29,14 @@ def targets(tier):
 	for idn, idt in (('all', Const(None)), ('selection', SeqOf(Int))):
 		for cn, ct in (('onechunk', Const(None)), ('chunked', Int)):
 			t.append((PM + 'jaccarddist_matrix', f'{idn},{cn}', {'ref_indices': idt, 'chunksize': ct}, rm))
+	rp = bulkc.register_pairwise
+	rp.lib = _bulk.BULK_LIB
+	t.append((PM + 'jaccarddist_pairwise', 'square,all', {'indices': Const(None)}, rp))
+	t.append((PM + 'jaccarddist_pairwise', 'square,selection', {'indices': SeqOf(Int)}, rp))
+	rf = bulkc.register_pairwise_flat
+	rf.lib = _bulk.BULK_LIB
+	t.append((PM + 'jaccarddist_pairwise', 'flat,all', {'indices': Const(None)}, rf))
+	t.append((PM + 'jaccarddist_pairwise', 'flat,selection', {'indices': SeqOf(Int)}, rf))
 	return t
 
 
@@ -42,6 +50,15 @@ def register(reg):
 	metric.register_array(reg)
 
 
+def lemmas(tier):
+	"""poff-closed-form: the row offset the flat contract is stated with (defined by recursion on the row) IS the offset of
+	scipy.spatial.distance.squareform, n*a - a(a+1)/2 - so the proved layout is the documented condensed layout"""
+	n, a = z3.Ints('n a')
+	ax = bulkc._poff_axiom()
+	return [Obligation('C05/lemma/poff-closed-form/base', [ax], bulkc.poff_closed_form(n, z3.IntVal(0))),
+	        Obligation('C05/lemma/poff-closed-form/step', [ax, a >= 0, bulkc.poff_closed_form(n, a)], bulkc.poff_closed_form(n, a + 1))]
+
+
 def bounded(run, run_oracle):
 	return run_oracle('C05', run.repo_root, {'op': 'bounded', 'tier': run.tier, 'seed': run.seed})
 
@@ -51,6 +68,7 @@ TRUSTED = [
 	'OpenMP / Cython implement prange as documented: iterations in any interleaving, scalars assigned in the loop are lastprivate; the frame obligations (each iteration writes only its own output cell, reads no written array, views do not alias) then make every schedule and thread count equal to the sequential loop; omp_set_num_threads only sets the thread count',
 	'NumPy: empty, astype(copy=False), shape/dtype attributes, basic-slice views write through to the parent',
 	'jaccarddist_matrix is verified over an ABSTRACT model (pyvc/libspec/bulk.py): opaque signatures with DV(a, b) = THE two-signature distance, an opaque AbstractSignatureArray whose indexing obeys the C20 contract (item r of refs[a:b] / refs[index list] is the selected item), a 2-d float32 array with row views that write through; its callee jaccarddist_array is used through the caller view of the contract verified on the concrete representations',
-	'BOUNDED only (real code, float32 bits compared, labelled): jaccarddist_pairwise (square mirror / condensed offsets), caller-supplied buffers and plain-list references of jaccarddist_matrix, HDF5-backed and list containers, thread counts 1..16 with repetitions',
+	'jaccarddist_pairwise is verified over the same abstract model for out=None, progress=None and an AbstractSignatureArray argument, square and flat, with and without an index selection: np.fill_diagonal, the mirror assignment out[i+1:n, i] = out[i, i+1:n] (right-hand side read before anything is written) and basic-slice views of a 1-d array are modelled in pyvc/libspec/bulk.py; the flat layout is stated with the row offset poff(n, a) defined by recursion, and lemma poff-closed-form proves it equal to the squareform offset n*a - a(a+1)/2; a collection has fewer than 2^63 items',
+	'BOUNDED only (real code, float32 bits compared, labelled): caller-supplied buffers (out=...) and plain-list arguments of jaccarddist_matrix / jaccarddist_pairwise, HDF5-backed and list containers, thread counts 1..16 with repetitions',
 ]
 ASSUMPTIONS = TRUSTED + ['requires: sorted duplicate-free non-negative signatures; len(out) == number of references; fewer than 2^31 references (C int loop counter); a SignatureArray satisfies its representation invariant (C20)']
